@@ -255,6 +255,12 @@ func (s *V2Sessionless) buildAndSendCommand(ctx context.Context, c ipmi.Command)
 			return err
 		}
 
+		// a duplicated, delayed or unsolicited reply to some other command
+		// may be waiting on the socket; it is not our response
+		if err := validateResponseOperation(&s.messageLayer, c.Operation()); err != nil {
+			return err
+		}
+
 		code := s.messageLayer.CompletionCode
 		// must increment here, otherwise we'll miss temporary codes at the
 		// higher levels
@@ -265,6 +271,18 @@ func (s *V2Sessionless) buildAndSendCommand(ctx context.Context, c ipmi.Command)
 		}
 		return nil
 	}, backoff.WithContext(s.backoff, ctx))
+}
+
+// validateResponseOperation ensures a received message is a response to the
+// request operation: the response network function is the request's plus one,
+// and the command (plus defining body or enterprise, if any) is identical.
+func validateResponseOperation(m *ipmi.Message, req *ipmi.Operation) error {
+	if m.Function != req.Function+1 || m.Command != req.Command ||
+		m.Body != req.Body || m.Enterprise != req.Enterprise {
+		return fmt.Errorf("received a response for %v, command %#x; sent %v, command %#x",
+			m.Function, uint8(m.Command), req.Function, uint8(req.Command))
+	}
+	return nil
 }
 
 func (s *V2Sessionless) GetSystemGUID(ctx context.Context) ([16]byte, error) {
